@@ -1,0 +1,19 @@
+//go:build verif
+
+package server
+
+import "github.com/bmeg/grip/jobstorage"
+
+// Hooks for the verification harness in /verif (build tag `verif`, off by
+// default): job storage and the graph->driver map are otherwise initialised
+// only inside Serve(), which opens TCP listeners.
+
+// VerifAttachJobStorage installs the job storage the Job service uses.
+func (server *GripServer) VerifAttachJobStorage(js jobstorage.JobStorage) {
+	server.jStorage = js
+}
+
+// VerifRefreshGraphMap rebuilds the graph->driver map as Serve() does at start.
+func (server *GripServer) VerifRefreshGraphMap() {
+	server.updateGraphMap()
+}
